@@ -861,9 +861,19 @@ def stage_channels(ctx):
         shape = rng.choice([3, 4])
         det_m = detector_grid(shape=shape, spacing=0.25, extra_dims={"illumination": det_order})
         det_s = detector_grid(shape=shape, spacing=0.25)
-        kw, kp = rng.choice(["dict", "array"]), rng.choice(["dict", "array", "vec" if same_pol else "dict"])
+        kw, kp = rng.choice(["dict", "array"]), rng.choice(["dict", "array", "rawarray", "vec" if same_pol else "rawarray"])
         wl_multi = mk(kw, wls)
-        if kp == "vec":
+        if kp == "rawarray":
+            # a raw labelled (illumination x vector) array, not passed through to_vector first: channels of different norms,
+            # often with ONE channel already of unit length (a per-array rather than per-channel normalisation test shows here)
+            if not same_pol and rng.random() < 0.6:
+                pols[rng.choice(labels)] = rng.choice([(1.0, 0.0), (0.0, 1.0), (0.6, 0.8), (-0.8, 0.6)])
+            ks = shuffled(rng, labels)
+            pol_multi = xr.DataArray([list(pols[l]) + [0.0] for l in ks], dims=["illumination", "vector"],
+                                     coords={"illumination": ks, "vector": ["x", "y", "z"]})
+            if rng.random() < 0.3:
+                pol_multi = pol_multi.transpose("vector", "illumination")
+        elif kp == "vec":
             pol_multi = tuple(pols[labels[0]])
         elif kp == "dict":
             pol_multi = {l: tuple(pols[l]) for l in shuffled(rng, labels)}
